@@ -185,6 +185,8 @@ class CFG:
         for n in self.nodes:
             if n.ast is None:
                 continue
+            if (n.ast is astnode or n.extra is astnode) and n.kind != "with_exit":
+                return n
             root = n.ast
             if n.kind == "loop":
                 roots = [root.iter, root.target]
